@@ -469,7 +469,8 @@ def process_range(job):
             exp = tuple(j - 1 for j in sorted(st["mask"]))
             r["replayed"] += 1
             for sh in SHIFTS:
-                for variant in (("ids", "rows") if sh == 0 else ("ids",)):
+                # the 2-column tagged-rows variant once per (w, bins): sample handling does not depend on ess
+                for variant in (("ids", "rows") if sh == 0 and essp == min_ess else ("ids",)):
                     o = run_trim(tools, np, w, sh, bins, essp, exp, variant)
                     r["evals"] += 1
                     for key_, what in o["viol"]:
@@ -529,6 +530,8 @@ def process_big(job):
                 r["viol"].append((key_, what, {"kind": "trim", "label": label, "N": len(w), "w_head": [int(x) for x in w[:16]],
                                                "shift": sh, "bins": bins, "essp": essp}))
             r["dev"] += bool(o["dev"])
+            if o["dev"]:
+                r["dev_sample"] = {"label": label, "N": len(w), "bins": bins, "essp": essp, "shift": sh, "what": o["dev"]}
             r["inc"] += bool(o["inc"])
         r["kept"] = len(mask)
         r["i"] = i
@@ -641,13 +644,13 @@ def main():
     if quick:
         fams = {
             "A": dict(vals=[0, 1, 2, 3, 4], minlen=1, maxlen=5, bins=[2, 3, 5], ess=ess, margin=MARGIN, budget=None),
-            "B": dict(vals=[0, 1, 2, 4, 8, 16], minlen=1, maxlen=4, bins=[1, 2, 3, 5], ess=ess, margin=MARGIN, budget=None),
+            "B": dict(vals=[0, 1, 2, 4, 8, 16], minlen=1, maxlen=4, bins=[1, 2, 5], ess=ess, margin=MARGIN, budget=None),
             "C": dict(vals=[0, 1, 2], minlen=5, maxlen=5, bins=[100], ess=ess, margin=50, budget=None),
         }
     else:
         fams = {
-            "A": dict(vals=[0, 1, 2, 3, 4, 5], minlen=1, maxlen=6, bins=[2, 3, 5, 9], ess=ess, margin=MARGIN, budget=None),
-            "B": dict(vals=[0, 1, 2, 4, 8, 16], minlen=1, maxlen=5, bins=[1, 2, 3, 5, 8, 13], ess=ess, margin=MARGIN, budget=None),
+            "A": dict(vals=[0, 1, 2, 3, 4, 5], minlen=1, maxlen=6, bins=[3, 5, 9], ess=ess, margin=MARGIN, budget=None),
+            "B": dict(vals=[0, 1, 2, 4, 8, 16], minlen=1, maxlen=5, bins=[1, 2, 3, 5, 8], ess=ess, margin=MARGIN, budget=None),
             "C": dict(vals=[0, 1, 2, 3], minlen=5, maxlen=5, bins=[34, 100], ess=ess, margin=50, budget=None),
         }
     # negative control of the specification: with ess > 1 (outside the quantifier) the loop index does go below 0
@@ -753,7 +756,7 @@ def main():
                 for bins in ((2, 5, 100) if N <= 200 else (2, 20)):
                     for e in ess:
                         big.append((f"geo:N={N},s={s},{perm}", tuple(w), -s * (N - 1), bins, e, bins == 2 and e == 30))
-        nrand = 60 if quick else 1500
+        nrand = 60 if quick else 1000
         for t in range(nrand):
             N = int(rng.choice([2, 3, 5, 8, 13, 50, 101, 200]))
             E = int(rng.choice([0, 3, 30, 300, 990]))
@@ -782,6 +785,7 @@ def main():
         for r in pool.imap_unordered(process_big, big, chunksize=4):
             for key_, what, rp in r["viol"]:
                 ck.violation(key_, what, rp)
+            dev_sample = dev_sample or r.get("dev_sample")
             if r["flagged"]:
                 bigagg["flagged"][r["flagged"]] = bigagg["flagged"].get(r["flagged"], 0) + 1
             for k in ("replayed", "evals", "dev", "inc", "nontrivial"):
@@ -867,7 +871,7 @@ def main():
         "distinct_nontrivial": agg["nontrivial"] + bigagg["nontrivial"],
         "rule": "one behaviour per (w, bins, ess); non-trivial = the accepted mask is a proper subset of the samples "
                 "(something is trimmed); each un-flagged terminal state is replayed into trim_weights at 3 scales "
-                "(ids as samples; at scale 1 also 2-column tagged rows); each enumerated vector goes through "
+                "(ids as samples; at scale 1 and the smallest ess also 2-column tagged rows); each enumerated vector goes through "
                 "effective_sample_size and compute_ess (positive entries / zeros as -inf) at 3 scales",
         "exhaustive": True,
         "scope": "PARTIAL: ESS and trimming clauses only; volume-variation invariances not addressed",
